@@ -158,6 +158,9 @@ def is_filter_empty(filter_like: Filter) -> bool:
   if isinstance(filter_like, bool):
     return not filter_like
   if isinstance(filter_like, DenyList):
+    if isinstance(filter_like.deny, DenyList):
+      # a nested DenyList matches everything only if what it denies is empty.
+      return is_filter_empty(filter_like.deny.deny)
     # if any arbitrary collection is in the denylist it matches everything so
     # the filter is empty. This is checked with a stub.
     return in_filter(filter_like.deny, '__flax_internal_stub__')
